@@ -689,3 +689,35 @@ def rule_chunked_both_forms(ctx):
                 ctx.violated("CHUNKFORMS", key, f.where(line), "the merge of chunking and compression is decided without looking at `*chunk_flags`: an object that is chunked in the input (and stays so) never gets the requested compression")
     ctx.floor("CHUNKFORMS", 3, n, "(decisions in options_get_info that merge compression into an existing chunking)")
     return n
+
+
+def rule_image_annotations_both_tags(ctx):
+    """ANBOTH (C18): an image can be annotated under either of its two tags - DFTAG_RIG (the group) or DFTAG_RI (the data) - and
+    hrepack reaches an image sometimes with one, sometimes with the other.  The routine that copies an image therefore copies
+    the annotations of *both* tags by name: it calls copy_an once with DFTAG_RIG and once with DFTAG_RI, not once with the tag
+    it happened to be called with."""
+    from .facts import int_name
+    prog = ctx.prog
+    n = 0
+    for f in prog.funcs:
+        if not f.rel.endswith("mfhdf/hrepack/hrepack_gr.c"):
+            continue
+        tags = set()
+        line = f.line
+        calls = 0
+        for _b, _i, s, c in f.calls():
+            if c[1] == "copy_an" and len(c[3]) > 3:
+                calls += 1
+                line = s.get("l", f.line)
+                if int_name(c[3][3]):
+                    tags.add(int_name(c[3][3]))
+        if not calls:
+            continue
+        n += 1
+        key = "ANBOTH:%s" % f.name
+        if {"DFTAG_RIG", "DFTAG_RI"} <= tags:
+            ctx.holds("ANBOTH", key, f.where(line), "annotations are copied for DFTAG_RIG and for DFTAG_RI", nontrivial=True)
+        else:
+            ctx.violated("ANBOTH", key, f.where(line), "the image's annotations are copied for %s only: those attached under the image's other tag are lost in the output" % (", ".join(sorted(tags)) or "the tag the routine was called with"))
+    ctx.floor("ANBOTH", 1, n, "(image copies that copy annotations)")
+    return n
